@@ -4,6 +4,7 @@ package main
 
 import (
 	"strconv"
+	"time"
 
 	"github.com/practable/relay/internal/deny"
 )
@@ -11,6 +12,7 @@ import (
 // mode deny: the real deny.Store under a mock clock, store-level operations
 func init() {
 	register("deny", func(args []string) {
+		opTimeout = 2 * time.Second // store operations are instantaneous; one that does not return has dead-locked
 		runLines(func() func(fs []string) string {
 			s := deny.New()
 			now := int64(0)
